@@ -51,6 +51,10 @@ func (m *Model) ruleLOCKPAIR(r *Results) {
 					_ = ret
 				}
 			}
+			if _, isW := m.lockWrapper(fn); isW && leak && !m.wrapperReturnsRelease(fn) && fn.Object() != nil && !fn.Object().Exported() && len(fn.Blocks) == 1 {
+				r.ok(rule, key, pos, "acquire wrapper: returns holding the lock; every call of it is an acquisition that is paired at its call site")
+				continue
+			}
 			if _, isW := m.lockWrapper(fn); isW && leak && m.wrapperReturnsRelease(fn) {
 				r.ok(rule, key, pos, "acquire wrapper: returns holding the lock together with its release function (paired at the call sites)")
 				continue
@@ -604,6 +608,102 @@ func (m *Model) ruleGUARDED(r *Results) {
 	if n < 25 {
 		r.undecided(rule, "instance-floor", "-", "only %d accesses to guarded fields found", n)
 	}
+}
+
+// ---------------------------------------------------------------- R-PKG-STATE
+
+func (m *Model) rulePKGSTATE(r *Results) {
+	const rule = "R-PKG-STATE"
+	// Package-level slices, arrays and maps are tables that are only read once the package is
+	// initialised: nothing guards them, so an operation writing one (directly, or by handing it
+	// to a function that may) races with every other goroutine doing the same.
+	nt := 0
+	for _, mem := range m.SSA.Members {
+		g, ok := mem.(*ssa.Global)
+		if !ok {
+			continue
+		}
+		switch g.Type().(*types.Pointer).Elem().Underlying().(type) {
+		case *types.Slice, *types.Array, *types.Map:
+		default:
+			continue
+		}
+		nt++
+		bad := ""
+		for _, fn := range m.Funcs {
+			if fn.Name() == "init" || strings.HasPrefix(fn.Name(), "init#") {
+				continue
+			}
+			for _, b := range fn.Blocks {
+				for _, ins := range b.Instrs {
+					var vals []ssa.Value
+					switch x := ins.(type) {
+					case *ssa.UnOp:
+						if x.Op == token.MUL && x.X == ssa.Value(g) {
+							vals = append(vals, x)
+						}
+					case *ssa.Slice:
+						if x.X == ssa.Value(g) {
+							vals = append(vals, x)
+						}
+					case *ssa.IndexAddr:
+						if x.X == ssa.Value(g) {
+							vals = append(vals, x)
+						}
+					case *ssa.Store:
+						if x.Addr == ssa.Value(g) {
+							bad = m.instrPos(x)
+						}
+					}
+					for _, v := range vals {
+						for _, ref := range *v.Referrers() {
+							switch u := ref.(type) {
+							case *ssa.Store:
+								if u.Addr == v {
+									bad = m.instrPos(u)
+								}
+							case *ssa.MapUpdate:
+								if u.Map == v {
+									bad = m.instrPos(u)
+								}
+							case *ssa.IndexAddr:
+								for _, r2 := range *u.Referrers() {
+									if st, ok := r2.(*ssa.Store); ok && st.Addr == ssa.Value(u) {
+										bad = m.instrPos(st)
+									}
+								}
+							case ssa.CallInstruction:
+								if readOnlyCallee(u) {
+									continue
+								}
+								bad = m.instrPos(u)
+							}
+						}
+					}
+				}
+			}
+		}
+		r.check(bad == "", rule, "package-level table "+g.Name()+" / read-only after initialisation", m.pos(g.Pos()), "only indexed, ranged over or formatted outside the package initialiser", "the package-level "+g.Name()+" is written, or handed to a function that may write it, at "+bad+": it is shared by every bucket and goroutine and nothing guards it, so concurrent operations overwrite one another's data")
+	}
+	r.ok(rule, "package-level tables", "-", "%d package-level slice/array/map variable(s)", nt)
+}
+
+// readOnlyCallee: the call cannot write through a slice, array or map argument.
+func readOnlyCallee(c ssa.CallInstruction) bool {
+	if bi, ok := c.Common().Value.(*ssa.Builtin); ok {
+		switch bi.Name() {
+		case "len", "cap", "print", "println":
+			return true
+		}
+		return false
+	}
+	if f := c.Common().StaticCallee(); f != nil && f.Pkg != nil {
+		switch f.Pkg.Pkg.Path() {
+		case "fmt", "strings", "log", "errors":
+			return true
+		}
+	}
+	return false
 }
 
 // guardVerdict is the outcome for one access to a guarded field.
@@ -1220,6 +1320,34 @@ func (m *Model) ruleREGISTRY(r *Results) {
 				pos = m.instrPos(ret)
 			}
 			r.check(ok, rule, name+" / files removed on every path", pos, "deleting a bucket always reaches the removal of its files", "deleting a bucket can return without removing its files (e.g. when it is no longer registered): CloseAndDelete reports success but the data survives and can be reopened")
+		}
+		// (c') ... and it drops the registry entry on every path too, whether or not the files could
+		// be removed: an entry left behind names a store that was shut down, and the next open of
+		// the name is handed a copy of it
+		if len(fileDeletes) > 0 && len(dels) > 0 {
+			c := newCut()
+			for _, d := range dels {
+				c.cutBlock(d.Block())
+			}
+			for _, iff := range allIfs(fn) {
+				if ex, ok := stripConv(iff.Cond).(*ssa.Extract); ok && ex.Index == 1 {
+					if lk, ok := ex.Tuple.(*ssa.Lookup); ok && lk.CommaOk {
+						if ld, ok := lk.X.(*ssa.UnOp); ok {
+							if fa, ok := ld.X.(*ssa.FieldAddr); ok && fieldOf(fa) == bucketMap {
+								c.cutEdge(iff.Block(), iff.Block().Succs[1])
+							}
+						}
+					}
+				}
+			}
+			reach := entryReach(fn, c)
+			bad := ""
+			for _, ret := range returnsOf(fn) {
+				if reach[ret.Block().Index] {
+					bad = m.instrPos(ret)
+				}
+			}
+			r.check(bad == "", rule, name+" / registry entry dropped on every path", m.instrPos(dels[0]), "every return of the deleting function lies behind the removal of the registry entry (or the finding that there is none)", "deleting a bucket can return (at "+bad+") with the bucket still registered, e.g. when its files could not be removed: the store has been shut down by then, and the next OpenBucket of the name is handed a copy of the closed bucket instead of opening the files")
 		}
 	}
 	// (a') a registry method that hands a bucket out hands out a COPY: the stored pointer is the
